@@ -1135,6 +1135,11 @@ def shards(tier: str, seed: int):
     out = []
     cf = configs(tier, seed)
     for i, cfg in enumerate(cf):
+        if cfg["kind"] == "stateful" or cfg.get("mirror"):
+            # shallow explorations: one shard per configuration (all first letters), the runner forks one process per shard
+            out.append({"tier": tier, "seed": seed, "sub": "history", "cfg": i, "first": "*",
+                        "lab": f"{label(cfg['desc'])}/D{cfg['D']}/{cfg['kind']}" + ("/mirror" if cfg.get("mirror") else "")})
+            continue
         for op in OPS:
             if op in ("update_inv", "call"):
                 continue  # not enabled in the initial state (no inverse yet)
@@ -1153,9 +1158,11 @@ def run_shard(shard) -> Acc:
     tier, seed = shard["tier"], shard["seed"]
     if shard["sub"] == "history":
         cfg = configs(tier, seed)[shard["cfg"]]
-        st, r = guarded(explore, cfg, shard["first"], depth_of(cfg, tier), acc)
-        if st == "raises":
-            acc.violation(f"C07/harness/{family(cfg['desc'])}/raises={type(r).__name__}/{label(cfg['desc'])}", {"cfg": cfg, "hist": [shard["first"]], "harness": True}, exc_text(r), size=1)
+        firsts = [op for op in OPS if op not in ("update_inv", "call")] if shard["first"] == "*" else [shard["first"]]
+        for first in firsts:
+            st, r = guarded(explore, cfg, first, depth_of(cfg, tier), acc)
+            if st == "raises":
+                acc.violation(f"C07/harness/{family(cfg['desc'])}/raises={type(r).__name__}/{label(cfg['desc'])}", {"cfg": cfg, "hist": [first], "harness": True}, exc_text(r), size=1)
         return acc
     cases = order_cases(tier, seed) if shard["sub"] == "order" else expflow_cases(tier, seed)
     fn = run_order if shard["sub"] == "order" else run_expflow
